@@ -86,11 +86,15 @@ func init() {
 	})
 	register(&Property{
 		ID: "C52",
-		Explanation: "Decides the structural conditions under which the n/t buckets partition the packs, not the arithmetic itself (the plan listed this property as not applicable; what is claimed here is the form of the predicate and the accepted ranges): (bucket-selection) selectPacksByBucket selects a pack iff pack[0] % totalBuckets == bucket-1 — a function of the pack alone, so two different n never select the same pack and every pack's residue r is selected by n = r+1; checkFlags accepts n/t only with n != 0, t != 0, n <= t and t <= totalBucketsMax (specialised evaluation: with any of these violated no nil return is reachable after parsing), and totalBucketsMax is 256, the number of values of the single ID byte used; selectRandomPacksByPercentage raises the number of packs to read to 1 for a non-empty repository. Not decided: the modular arithmetic itself (every residue 0..t-1 is below t), uniformity, and the size-based subset's rounding.",
+		Explanation: "Decides the structural conditions under which the n/t buckets partition the packs, not the arithmetic itself (the plan listed this property as not applicable; what is claimed here is the form of the predicate and the accepted ranges): (bucket-selection) selectPacksByBucket selects a pack iff pack[0] % totalBuckets == bucket-1 — a function of the pack alone, so two different n never select the same pack and every pack's residue r is selected by n = r+1; checkFlags accepts n/t only with n != 0, t != 0, n <= t and t <= totalBucketsMax (specialised evaluation: with any of these violated no nil return is reachable after parsing), and totalBucketsMax is 256, the number of values of the single ID byte used; selectRandomPacksByPercentage raises the number of packs to read to 1 for a non-empty repository; (subset-wiring) buildPacksFilter hands element 0 of the parsed n/t to selectPacksByBucket as the bucket and element 1 as the number of buckets (both uint: swapped, it compiles), repository.Checker.ReadPacks uses the pack list of the index for nothing but the call of the subset filter and ranges only over the filter's result, and the snapshot-filtered checker returns what the caller's filter makes of the restricted list. Not decided: the modular arithmetic itself (every residue 0..t-1 is below t), uniformity, and the size-based subset's rounding.",
 		Assumptions: commonAssumptions,
 		Technique:   "static analysis: shape of the selection predicate (operators, operands, constants) + specialised path evaluation of the option validation (go/ssa, go/constant)",
-		Run:         func(c *eng.Ctx) { ruleBucketSelection(c) },
+		Run:         func(c *eng.Ctx) { ruleBucketSelection(c); ruleSubsetWiring(c) },
 		Controls: []Control{
+			{Name: "bucket-and-total-swapped", File: "cmd/restic/cmd_check.go",
+				Old: "			bucket := dataSubset[0]\n			totalBuckets := dataSubset[1]\n", New: "			bucket := dataSubset[1]\n			totalBuckets := dataSubset[0]\n", Rule: "subset-wiring"},
+			{Name: "progress-counts-all-packs", File: "internal/repository/checker.go",
+				Old: "	packs = filter(packs)\n\n	p := printer.NewCounter(\"packs\")\n	p.SetMax(uint64(len(packs)))", New: "	p := printer.NewCounter(\"packs\")\n	p.SetMax(uint64(len(packs)))\n	packs = filter(packs)\n", Rule: "subset-wiring"},
 			{Name: "bucket-compared-without-offset", File: "cmd/restic/cmd_check.go",
 				Old: "		if (uint(pack[0]) % totalBuckets) == (bucket - 1) {", New: "		if (uint(pack[0]) % totalBuckets) == bucket {", Rule: "bucket-selection"},
 			{Name: "n-greater-than-t-accepted", File: "cmd/restic/cmd_check.go",
@@ -222,7 +226,7 @@ func init() {
 	})
 	register(&Property{
 		ID: "C25",
-		Explanation: "Decides the effect clause, not the resulting tag list: (tag-effects) the call closure of changeTags stores to no field of data.Snapshot other than Tags and Original (every other field of the snapshot is unchanged by construction); Tags is assigned the --set list only on the len(setTags)!=0 edge and AddTags/RemoveTags run only on the other edge; runTag rejects conflicting options; (replace-order) the retagged snapshot is saved before the old one is removed, so the number of snapshots never drops; (set-always-persisted) on the len(setTags)!=0 edge sn.Tags is assigned the --set list itself (nil for the single empty string) and every successful return passes SaveSnapshot — skipping the save is accepted only behind an exact equality test (slices.Equal / reflect.DeepEqual) of old and new list — added after a seeded change that skipped the save for set-equal lists; (add-only-absent-tags) AddTags does not append a tag once an existing tag compared equal to it (RemoveTags removes one occurrence per tag, which is only right while lists hold no duplicates) — added after a seeded change that turned `continue nextTag` into `break`. Not decided: the resulting tag list of --add/--remove — reading the code showed that Snapshot.RemoveTags stops after the first match, so a duplicated tag [a,a] survives `tag --remove a` (documented in DESIGN.md §5 as an observation; no sound structural rule decides it).",
+		Explanation: "Decides the effect clause, not the resulting tag list: (tag-effects) the call closure of changeTags stores to no field of data.Snapshot other than Tags and Original (every other field of the snapshot is unchanged by construction); Tags is assigned the --set list only on the len(setTags)!=0 edge and AddTags/RemoveTags run only on the other edge; runTag rejects conflicting options; (replace-order) the retagged snapshot is saved before the old one is removed, so the number of snapshots never drops; (set-always-persisted) on the len(setTags)!=0 edge sn.Tags is assigned the --set list itself (nil for the single empty string) and every successful return passes SaveSnapshot — skipping the save is accepted only behind an exact equality test (slices.Equal / reflect.DeepEqual) of old and new list — added after a seeded change that skipped the save for set-equal lists; (add-only-absent-tags) AddTags does not append a tag once an existing tag compared equal to it (RemoveTags removes one occurrence per tag, which is only right while lists hold no duplicates) — added after a seeded change that turned `continue nextTag` into `break`. Not decided: the resulting tag list of --add/--remove as a value. (remove-every-occurrence) RemoveTags goes on scanning the snapshot's tags after a match — genuine defect, fixed in /repo: it stopped at the first match, so a duplicated tag [a,a] survived `tag --remove a`, which the statement's quantifier names.",
 		Assumptions: commonAssumptions,
 		Technique:   "static analysis: field-store effects over the call closure of changeTags + CFG edge cuts (go/ssa)",
 		Run: func(c *eng.Ctx) {
@@ -230,8 +234,11 @@ func init() {
 			ruleReplaceOrder(c)
 			ruleSetAlwaysPersisted(c)
 			ruleAddOnlyAbsentTags(c)
+			ruleRemoveEveryOccurrence(c)
 		},
 		Controls: []Control{
+			{Name: "remove-stops-at-first-occurrence", File: "internal/data/snapshot.go",
+				Old: "				// the tag moved to position i has not been examined yet\n				i--\n", New: "				break\n", Rule: "remove-every-occurrence"},
 			{Name: "set-skipped-when-first-tag-equal", File: "cmd/restic/cmd_tag.go",
 				Old: "		sn.Tags = setTags\n		changed = true", New: "		changed = len(sn.Tags) == 0 || len(setTags) == 0 || sn.Tags[0] != setTags[0]\n		sn.Tags = setTags", Rule: "set-always-persisted"},
 			{Name: "tag-also-rewrites-hostname", File: "cmd/restic/cmd_tag.go",
